@@ -439,6 +439,14 @@ func (st *State) havocAll() {
 	top := st.ex.ctx.Fresh("allocTop", SInt)
 	st.assume(tGe(top, st.allocTop))
 	st.allocTop = top
+	// ghost globals are part of the state an unconstrained callee may change
+	for _, cf := range st.ex.db.files {
+		for name := range cf.Ghosts {
+			if sc, ok := st.ghost[name].(Sc); ok {
+				st.ghost[name] = Sc{st.ex.ctx.Fresh("ghost_"+name, sc.T.Sort)}
+			}
+		}
+	}
 }
 
 // derefPtr turns a pointer value into a location.
